@@ -1,0 +1,64 @@
+//go:build verif
+
+package vgirpc
+
+import "time"
+
+// Verification hooks for C39 (build tag "verif"): thin exported wrappers around
+// the access-log sampler and async emitter internals. Add-only; nothing here
+// is compiled into normal builds.
+
+// VerifC39Emit runs the hook's emit path (sampler, then async queue or file)
+// on a caller-built record.
+func (h *AccessLogHook) VerifC39Emit(record map[string]any) { h.emit(record) }
+
+// VerifC39Sampler reports the installed sampler's rate and 32-bit threshold;
+// ok is false when no sampler is installed.
+func (h *AccessLogHook) VerifC39Sampler() (rate float64, threshold uint32, ok bool) {
+	s := h.sampler.Load()
+	if s == nil {
+		return 0, 0, false
+	}
+	return s.rate, s.threshold, true
+}
+
+// VerifC39Emitter is a handle on an async emitter that survives the hook
+// dropping its own reference in Close.
+type VerifC39Emitter struct{ a *asyncEmitter }
+
+// VerifC39Emitter returns the hook's current async emitter, or nil.
+func (h *AccessLogHook) VerifC39Emitter() *VerifC39Emitter {
+	a := h.async.Load()
+	if a == nil {
+		return nil
+	}
+	return &VerifC39Emitter{a: a}
+}
+
+// Enqueue hands a record straight to the emitter, bypassing the sampler.
+func (e *VerifC39Emitter) Enqueue(record map[string]any) { e.a.enqueue(record) }
+
+// Close runs the emitter's close (blocks until the writer has drained).
+func (e *VerifC39Emitter) Close() { e.a.close() }
+
+// State reports the channel occupancy and capacity, the pending dropped
+// count, the closed flag and whether the writer goroutine has exited. stuck is
+// true (and the other values are zero) when the emitter's mutex could not be
+// taken within two seconds.
+func (e *VerifC39Emitter) State() (queued, capacity int, dropped int64, closed, done, stuck bool) {
+	deadline := time.Now().Add(2 * time.Second)
+	for !e.a.mu.TryLock() {
+		if time.Now().After(deadline) {
+			return 0, 0, 0, false, false, true
+		}
+		time.Sleep(50 * time.Microsecond)
+	}
+	queued, capacity, dropped, closed = len(e.a.ch), cap(e.a.ch), e.a.dropped, e.a.closed
+	e.a.mu.Unlock()
+	select {
+	case <-e.a.done:
+		done = true
+	default:
+	}
+	return
+}
